@@ -456,6 +456,23 @@ def handleNorm (zs : Zones) (fn : String) (a : Array String) : Option String := 
   | "pub_midnight" =>
       let o ← getObs a 0; let d ← getOptI a[5]!; let tz ← getTzArg zs a[6]!; let now ← getI a[7]!
       pure (exc tokI (midnightPublic (resolveIn zs) now o d tz))
+  | "pub_period" =>
+      -- pub_period <fn> <obs…5> <date|N> <dir> <tz> <now>
+      let fn ← (match a[0]! with
+        | "daylight" => some PeriodFn.daylight | "night" => some .night | "twilight" => some .twilight
+        | "golden_hour" => some .goldenHour | "blue_hour" => some .blueHour
+        | "rahu_day" => some .rahuDay | "rahu_night" => some .rahuNight | _ => none)
+      let o ← getObs a 1; let d ← getOptI a[6]!; let dir ← getDir a[7]!
+      let tz ← getTzArg zs a[8]!; let now ← getI a[9]!
+      pure (exc pair (periodPublic (resolveIn zs) now fn o d dir tz))
+  | "pub_sun" =>
+      -- pub_sun <obs…5> <date|N> <dep> <tz> <now>
+      let o ← getObs a 0; let d ← getOptI a[5]!
+      let dep ← getDepSpec a[6]!
+      let tz ← getTzArg zs a[7]!; let now ← getI a[8]!
+      pure (exc (fun (s : SunTimes) =>
+        s!"{tokI s.dawn} {tokI s.sunrise} {tokI s.noon} {tokI s.sunset} {tokI s.dusk}")
+        (sunBundlePublic (resolveIn zs) now o d dep tz))
   | "pub_moon" =>
       let rise ← getB a[0]!; let lat ← getF a[1]!; let lon ← getF a[2]!
       let ds ← getDateSpec zs a[3]!; let tz ← getTzArg zs a[4]!; let now ← getI a[5]!
